@@ -253,6 +253,91 @@ impl Prop for Selector {
     }
 }
 
+/// Exhaustive small scope (the statement's quantifier: all layouts up to 4 DCs x 4 nodes, all local node positions, all
+/// levels, all sequences of prior selections up to a length bound): words [seed, n_dcs, size x 4, local dc, local position,
+/// n selections, level x 3].
+pub struct SelectorSmall;
+
+fn small_space_with(seeds: &[u64], max_sel: usize) -> Vec<Vec<u64>> {
+    let mut out = vec![];
+    for seed in seeds {
+        for k in 1..=4usize {
+            for sizes in 0..4u64.pow(k as u32) {
+                let sz: Vec<u64> = (0..4).map(|d| if d < k { 1 + (sizes / 4u64.pow(d as u32)) % 4 } else { 0 }).collect();
+                for ldc in 0..k {
+                    for lpos in 0..sz[ldc] {
+                        for n in 1..=max_sel {
+                            for sel in 0..8u64.pow(n as u32) {
+                                let mut w = vec![*seed, k as u64];
+                                w.extend(&sz);
+                                w.extend([ldc as u64, lpos, n as u64]);
+                                w.extend((0..3).map(|i| (sel / 8u64.pow(i as u32)) % 8));
+                                out.push(w);
+                            }
+                        }
+                    }
+                }
+            }
+        }
+    }
+    out
+}
+
+pub fn small_space() -> Vec<Vec<u64>> {
+    small_space_with(&[7], 3)
+}
+
+pub fn small_space_thorough() -> Vec<Vec<u64>> {
+    small_space_with(&[7, 8, 9, 10, 11, 12, 13, 14], 3)
+}
+
+impl Prop for SelectorSmall {
+    type Case = Case;
+
+    fn id(&self) -> &'static str {
+        "C15"
+    }
+
+    fn part(&self) -> &'static str {
+        "selector-small-scope"
+    }
+
+    fn width(&self) -> usize {
+        13
+    }
+
+    fn gen(&self, src: &mut Src) -> Case {
+        let rng_seed = src.word();
+        let k = src.word().clamp(1, 4) as usize;
+        let sizes: Vec<usize> = (0..4).map(|_| src.word().min(4) as usize).collect();
+        let mut layout = Layout::new();
+        for dc in 0..k {
+            layout.insert(dc_name(0, dc), (0..sizes[dc].max(1)).map(|i| addr(dc, i)).collect());
+        }
+        let ldc = (src.word() as usize).min(k - 1);
+        let local_dc = dc_name(0, ldc);
+        let lpos = (src.word() as usize).min(layout[&local_dc].len() - 1);
+        let local = layout[&local_dc][lpos];
+        let n = src.word().clamp(1, 3) as usize;
+        let levels: Vec<usize> = (0..3).map(|_| (src.word() % 8) as usize).collect();
+        Case { layout, local, local_dc, selections: levels[..n].to_vec(), rng_seed }
+    }
+
+    fn run(&self, case: &Case) -> Outcome {
+        Selector.run(case)
+    }
+
+    fn describe(&self, case: &Case) -> Value {
+        Selector.describe(case)
+    }
+
+    fn rule(&self) -> &'static str {
+        "exhaustive: every layout of 1-4 data centres x 1-4 nodes, every position of the local node, every sequence of 1-3 \
+         selections over all eight levels on the same cursors (so every level after every pair of prior selections), for one \
+         (thorough: eight) seeds of the selector's RNG; same validity oracle as part selector"
+    }
+}
+
 pub fn parts() -> Vec<Box<dyn DynPart>> {
     vec![Box::new(Gen::new(Selector, 1_500_000, 150_000_000))]
 }
@@ -474,6 +559,7 @@ async fn run_node(case: &NodeCase) -> Outcome {
 pub fn parts_all() -> Vec<Box<dyn DynPart>> {
     vec![
         Box::new(Gen::new(Selector, 1_500_000, 150_000_000)),
+        Box::new(Gen::listed2(SelectorSmall, small_space, small_space_thorough)),
         Box::new(Gen::new(NodePart, 60_000, 3_000_000)),
     ]
 }
